@@ -645,3 +645,19 @@ func TestD33_RequestWithoutBody(t *testing.T) {
 		}
 	})
 }
+
+// D34: a typed-nil pointer in the input, passed on unchanged by a Preprocess function, panicked inside Parse
+func TestD34_PreprocessReturnsTypedNil(t *testing.T) {
+	type D struct{ A int }
+	s := z.Struct(z.Schema{"a": z.Preprocess(func(data any, ctx z.Ctx) (any, error) { return data, nil }, z.Int())})
+	plain := z.Struct(z.Schema{"a": z.Int()})
+	var np *string
+	noPanic(t, "typed nil through Preprocess", func() {
+		var d, e D
+		errs := s.Parse(map[string]any{"a": np}, &d)
+		want := plain.Parse(map[string]any{"a": np}, &e)
+		if len(errs["a"]) != len(want["a"]) || (len(errs["a"]) == 1 && errs["a"][0].Code != want["a"][0].Code) {
+			t.Fatalf("issues %v, without the Preprocess %v", errs, want)
+		}
+	})
+}
